@@ -32,44 +32,66 @@ def dropLoop : Bytes → List Nat → Int → R (List Nat × Int)
     else if isAnnot d then .ok (slides, stack)
     else .error (.illegal "malformed move: bad count")
 
-/-- `ParseMove` -/
-def parseMove (move : Bytes) : R Move := do
-  if move.length < 2 then throw (.illegal "move too short")
-  let b0 ← idx move 0
-  -- (m.Type, stack, i) after the first switch; `m.Type` stays 0 when a carry count was read
-  let (ty, stack, i) : Nat × Nat × Nat :=
-    if b0 == 70 then (Facts.mtPlaceFlat, 0, 1)
-    else if b0 == 83 then (Facts.mtPlaceStanding, 0, 1)
-    else if b0 == 67 then (Facts.mtPlaceCapstone, 0, 1)
-    else if is18 b0 then (0, b0.toNat - 48, 1)
-    else (Facts.mtPlaceFlat, 0, 0)
-  if move.length < i + 2 then throw (.illegal "move too short")
-  let bx ← idx move i
-  if !(97 ≤ bx.toNat && bx.toNat ≤ 104) then throw (.illegal "illegal move")
-  let x : Int := (bx.toNat - 97 : Nat)
-  let i := i + 1
-  let by_ ← idx move i
-  if !is18 by_ then throw (.illegal "illegal move")
-  let y : Int := (by_.toNat - 49 : Nat)
-  let i := i + 1
-  let m : Move := { x := x, y := y, type := ty, slides := 0#32 }
-  let placeRet : R Move := if stack ≠ 0 then .error (.illegal "illegal move") else .ok m
-  if i == move.length then placeRet else
-  let bd ← idx move i
-  if isAnnot bd then placeRet else
-  let ty ← (if bd == 60 then .ok Facts.mtSlideLeft
-            else if bd == 62 then .ok Facts.mtSlideRight
-            else if bd == 43 then .ok Facts.mtSlideUp
-            else if bd == 45 then .ok Facts.mtSlideDown
-            else .error (.illegal "bad move") : R Nat)
+/-- what the first `switch move[i]` leaves behind: `m.Type` (0 when a carry count was read), `stack`, `i` -/
+def parseHead (b0 : UInt8) : Nat × Nat × Nat :=
+  if b0 == 70 then (Facts.mtPlaceFlat, 0, 1)
+  else if b0 == 83 then (Facts.mtPlaceStanding, 0, 1)
+  else if b0 == 67 then (Facts.mtPlaceCapstone, 0, 1)
+  else if is18 b0 then (0, b0.toNat - 48, 1)
+  else (Facts.mtPlaceFlat, 0, 0)
+
+/-- the second `switch move[i]`: the direction character -/
+def parseDir (bd : UInt8) : R Nat :=
+  if bd == 60 then .ok Facts.mtSlideLeft
+  else if bd == 62 then .ok Facts.mtSlideRight
+  else if bd == 43 then .ok Facts.mtSlideUp
+  else if bd == 45 then .ok Facts.mtSlideDown
+  else .error (.illegal "bad move")
+
+/-- everything after the direction character: `rest = move[i+1:]`, `stack` the carry count read (0 = none) -/
+def parseDrops (m : Move) (ty : Nat) (stack : Nat) (rest : Bytes) : R Move :=
   let stack := if stack == 0 then 1 else stack
-  let i := i + 1
-  let (slides, stack) ← dropLoop (move.drop i) [] (stack : Int)
-  let slides ← (if stack > 0 then .ok (slides ++ [stack.toNat])
-                else if stack < 0 then .error (.illegal "malformed move: bad count")
-                else .ok slides : R (List Nat))
-  let s ← mkSlides slides
-  pure { m with type := ty, slides := s }
+  match dropLoop rest [] (stack : Int) with
+  | .error e => .error e
+  | .ok (slides, stack) =>
+    let slides? : R (List Nat) :=
+      if stack > 0 then .ok (slides ++ [stack.toNat])
+      else if stack < 0 then .error (.illegal "malformed move: bad count")
+      else .ok slides
+    match slides? with
+    | .error e => .error e
+    | .ok slides =>
+      match mkSlides slides with
+      | .error e => .error e
+      | .ok s => .ok { m with type := ty, slides := s }
+
+/-- `ParseMove` -/
+def parseMove (move : Bytes) : R Move :=
+  if move.length < 2 then .error (.illegal "move too short") else
+  match idx move 0 with
+  | .error e => .error e
+  | .ok b0 =>
+  match parseHead b0 with
+  | (ty, stack, i) =>
+  if move.length < i + 2 then .error (.illegal "move too short") else
+  match idx move i with
+  | .error e => .error e
+  | .ok bx =>
+  if !(97 ≤ bx.toNat && bx.toNat ≤ 104) then .error (.illegal "illegal move") else
+  match idx move (i + 1) with
+  | .error e => .error e
+  | .ok by_ =>
+  if !is18 by_ then .error (.illegal "illegal move") else
+  let m : Move := { x := ((bx.toNat - 97 : Nat) : Int), y := ((by_.toNat - 49 : Nat) : Int), type := ty, slides := 0#32 }
+  let placeRet : R Move := if stack ≠ 0 then .error (.illegal "illegal move") else .ok m
+  if i + 2 == move.length then placeRet else
+  match idx move (i + 2) with
+  | .error e => .error e
+  | .ok bd =>
+  if isAnnot bd then placeRet else
+  match parseDir bd with
+  | .error e => .error e
+  | .ok ty => parseDrops m ty stack (move.drop (i + 3))
 
 /-- `formatMove(m, long)`; `byte('a'+m.X)` is int8 addition followed by truncation: the low 8 bits of the sum -/
 def formatMove (m : Move) (long : Bool) : Bytes :=
